@@ -250,6 +250,19 @@ def run_case_files(vfiles, timeout=900):
     return {f: out for f, (rc, out) in outs.items()}
 
 
+_TICKS = [0]
+
+
+def tick():
+    """Cyclic garbage is collected only here, from the harness' own code in the main thread.  Automatic collection is switched off
+    (main.py) because the finaliser of an abandoned prefetch generator joins threads (`with PoolExecutor`, `thread.join()`), and when
+    CPython 3.12 happens to run the collector inside threading's own critical section (`_shutdown_locks_lock`, e.g. while a new
+    thread bootstraps) that join self-deadlocks - observed once in a thorough run, see DESIGN.md section 4."""
+    import gc
+    _TICKS[0] += 1
+    gc.collect(1 if _TICKS[0] % 40 else 2)
+
+
 def fresh_dir(name):
     d = os.path.join(BUILD, name)
     shutil.rmtree(d, ignore_errors=True)
